@@ -116,7 +116,64 @@ DriftCoreness(r) ==
   IF r.raised # "" \/ r.malformed # "" \/ Len(r.kn) = 0 THEN "na"
   ELSE IF r.kn[1] = Cardinality(Alive(r.n, r.A, r.kind)) THEN "same" ELSE "differs:kn0"
 
+(* ---- near-threshold records of score_wu (kind "wux", KCore: two-level weights): *)
+(* the input is the pair of integer matrices (A, E), weight = A*2^gap + E in    *)
+(* units of 2^(scale-gap), the bounds are the pairs (b2s[t], e2s[t]), bound =   *)
+(* (b2*2^gap + e2)/2 in the same unit, ascending; every weight, every bound and *)
+(* every sum of weights is exact in binary64 (the harness checks it), so the    *)
+(* code's comparisons "strength < s" see the exact values.  The returned        *)
+(* matrices come back split the same way (cores, coresE).                       *)
+InDomainX(r) ==
+  LET n == r.n  A == r.A  E == r.E IN
+  /\ IsSquare(n, A) /\ IsSquare(n, E) /\ DiagZero(n, A) /\ DiagZero(n, E)
+  /\ IsSym(n, A) /\ IsSym(n, E)
+  /\ \A i, j \in 1..n : PosX(A[i][j], E[i][j]) \/ ZeroX(A[i][j], E[i][j])
+  /\ r.gap >= 21
+  /\ Len(r.e2s) = Len(r.b2s)
+  /\ \A t \in 1..Len(r.b2s) : TwoLevelOk(n, E, r.e2s[t]) /\ r.b2s[t] >= 0
+  /\ \A t \in 1..(Len(r.b2s) - 1) :
+        r.b2s[t] < r.b2s[t + 1] \/ (r.b2s[t] = r.b2s[t + 1] /\ r.e2s[t] < r.e2s[t + 1])
+
+OracleX(n, A, E, b2, e2) == IF n <= EnumMax THEN CoreSetX(n, A, E, b2, e2)
+                            ELSE PeelCoreSetX(n, A, E, b2, e2)
+SupportX(n, M, ME) == {<<i, j>> \in (1..n) \X (1..n) : ~ZeroX(M[i][j], ME[i][j])}
+
+ClauseAtX(r, t) ==
+  LET n == r.n
+      core == OracleX(n, r.A, r.E, r.b2s[t], r.e2s[t])
+  IN
+  (* "return the input restricted to the largest node set in which every node   *)
+  (* keeps ... strength at least s inside the set, all other rows and columns   *)
+  (* zeroed" - decided exactly, however close a strength is to s                *)
+  Chk("MatrixIsInputRestrictedToCore",
+        /\ MatrixIsInputRestrictedTo(n, r.A, r.cores[t], core)
+        /\ MatrixIsInputRestrictedTo(n, r.E, r.coresE[t], core),
+  (* "together with that set's size" (bounds > 0, as above)                     *)
+  Chk("SizeIsCoreSize",
+        PosX(r.b2s[t], r.e2s[t]) => r.sizes[t] = Cardinality(core),
+  "ok"))
+
+JudgeCoreX(r) ==
+  LET n == r.n  T == Len(r.b2s)
+      at == {ClauseAtX(r, t) : t \in 1..T}
+  IN
+  Chk("Returns",    r.raised = "",
+  Chk("WellFormed", /\ r.malformed = ""
+                    /\ Len(r.cores) = T /\ Len(r.coresE) = T /\ Len(r.sizes) = T
+                    /\ \A t \in 1..T : IsSquare(n, r.cores[t]) /\ IsSquare(n, r.coresE[t]),
+  Chk("MatrixIsInputRestrictedToCore", "MatrixIsInputRestrictedToCore" \notin at,
+  Chk("SizeIsCoreSize", "SizeIsCoreSize" \notin at,
+  (* "cores are nested as k grows" (bounds ascending: InDomainX)                *)
+  Chk("Nested",     \A t \in 1..(T - 1) :
+                       SupportX(n, r.cores[t + 1], r.coresE[t + 1])
+                          \subseteq SupportX(n, r.cores[t], r.coresE[t]),
+  "ok")))))
+
 Judge(r) ==
+  IF r.kind = "wux"
+  THEN IF ~InDomainX(r) THEN <<"skip:outside_domain", "na", "any">>
+       ELSE <<JudgeCoreX(r), "na", "wu">>
+  ELSE
   IF ~InDomain(r) THEN <<"skip:outside_domain", "na", "any">>
   ELSE IF IsCoreFn(r) THEN <<JudgeCore(r), DriftCore(r), r.kind>>
   ELSE <<JudgeCoreness(r), DriftCoreness(r), ClassCoreness(r)>>
